@@ -50,6 +50,7 @@ func newHalf(capacity int) *half {
 type ReadStep struct {
 	Max   int  // deliver at most Max bytes (0 with Stall=false and Cut=false means "no limit")
 	Stall bool // return a temporary timeout without data
+	Hook  func() // called (outside the connection's locks) when the step is taken, before it takes effect
 	Cut   bool // return a hard error from now on
 	EOF   bool // return io.EOF from now on
 }
@@ -202,6 +203,9 @@ func (c *Conn) Read(b []byte) (n int, err error) {
 		}
 		if step.Stall {
 			c.pmu.Unlock()
+			if step.Hook != nil {
+				step.Hook()
+			}
 			return 0, ErrTimeout
 		}
 		if step.Max > 0 && step.Max < limit {
